@@ -31,6 +31,10 @@ ALPHABETS = {
     "num": "0123456789abcdefx-",       # 0x1f, -0x8, 16
     "dec": "0123456789",
     "sym": "abcdefghijklmnopqrstuvwxyzABCDEFGHIJKLMNOPQRSTUVWXYZ0123456789_@.+",
+    # the same families without the letter 't': a token over them cannot hold (part of) the word `data16`, which keeps
+    # whole-listing templates on one path
+    "mn": "abcdefghijklmnopqrsuvwxyz0123456789",
+    "symn": "abcdefghijklmnopqrsuvwxyzABCDEFGHIJKLMNOPQRSUVWXYZ0123456789_@.+",
 }
 
 
@@ -460,6 +464,9 @@ def t_contains(s: Str, sub: str) -> bool:
         if syms[i:i + len(sub)] == list(sub):
             return True
     holes = [x for x in syms if isinstance(x, Hole)]
+    lits = {x for x in syms if not isinstance(x, Hole)}
+    if any(all(c not in alphabet(h) for h in holes) and c not in lits for c in sub):
+        return False        # a character of sub that no token can hold and no literal text has
     if any(all(c not in alphabet(h) for h in holes) for c in sub):
         # some character of sub can only come from literal text, and the literal text does not hold sub
         # (sub cannot straddle a token either, since that character would have to be literal and adjacent)
